@@ -1,8 +1,8 @@
-"""F-C20: the status `doit info` shows is the decision `doit run` takes (as `list -s` already does).
-Three scenarios; in each, `list -s` agrees with `run` and `info` does not:
+"""F-C20 (a), (b) -- OPEN: the status `doit info` shows is the decision `doit run` takes (as `list -s` already does).
+Two scenarios; in each, `list -s` agrees with `run` and `info` does not ((c), the ignored task, is repaired:
+F-C20-info-ignore.py):
  (a) a file_dep missing + another one modified      run: dependency error   list: E   info: run
- (b) false uptodate item + the only file_dep missing run: executes the task  list: R   info: error
- (c) ignored task                                    run: skips (ignored)    list: I   info: run"""
+ (b) false uptodate item + the only file_dep missing run: executes the task  list: R   info: error"""
 import os, re
 from _util import *
 
@@ -56,15 +56,4 @@ with scratch():
     ran = 'run' if len(log) > n0 else 'not-executed'
     if not (lst == 'R' and ran == 'run' and info == 'run'):
         bad.append('(b) run: %s, list -s: %s, info: %s' % (ran, lst, info))
-with scratch():
-    for n in 'ab':
-        open(n, 'w').write(n)
-    log = []
-    ns = world(log)
-    run_doit(ns, ['ignore', 't'])
-    info, lst = shown(ns)
-    run_doit(ns, ['run'])
-    ran = 'ignore' if not log else 'run'
-    if not (lst == 'I' and ran == 'ignore' and info == 'ignore'):
-        bad.append('(c) run: %s, list -s: %s, info: %s' % (ran, lst, info))
-done(not bad, '; '.join(bad) if bad else 'info shows the decision of run in the three scenarios')
+done(not bad, '; '.join(bad) if bad else 'info shows the decision of run in both scenarios')
